@@ -335,8 +335,9 @@ def r02g(R):
                 if call in n.calls():
                     names = [op for op, _ in ops]
                     folded = [[A.try_fold(a, f) for a in args] for _, args in ops]
-                    if ('PUSHQ' in names and 'OP' in names
-                            and [-1] in [x[:1] for x in folded]) \
+                    # PUSHQ -1 (followed by OP MUL, in the same call or the
+                    # next one), or OP USUB
+                    if ('PUSHQ' in names and [-1] in [x[:1] for x in folded]) \
                             or any(isinstance(v, EnumVal) and v.member == 'USUB'
                                    for x in folded for v in x):
                         neg_nodes.append(n)
